@@ -22,7 +22,7 @@ _REC = None
 def _recording():
     global _REC
     if _REC is None:
-        _REC = data.Recording(path="a.wav", duration=100.0, channels=1, samplerate=8000)
+        _REC = data.Recording(path="a.wav", duration=100000.0, channels=1, samplerate=8000)
     return _REC
 
 def _thr(case, unit):
@@ -56,6 +56,16 @@ def execute(case):
             o = outcome(geometry.is_in_clip, g, clip, case["m"] * tu) if case["m"] != 0 else outcome(geometry.is_in_clip, g, clip)
             r.append(o)
             rs.append(o)
+        elif k == "clipfar":
+            # ticks of 2^-10 s, about an hour into the recording: absolute tolerances that are harmless near 0 bite here
+            fu = 2.0 ** -10
+            if tu != TIME_UNITS[0]:
+                continue
+            g = build(case["g"], fu)
+            clip = data.Clip(recording=_recording(), start_time=case["clip"][0] * fu, end_time=case["clip"][1] * fu)
+            o = outcome(geometry.is_in_clip, g, clip, case["m"] * fu) if case["m"] != 0 else outcome(geometry.is_in_clip, g, clip)
+            r.append(o)
+            rs.append(o)
         else:
             raise ValueError(k)
     return {"r": r, "rs": rs}
@@ -84,6 +94,21 @@ def random_cases(rng, tier):
         elif t < 0.85:
             abs_, rel = [0], [[2, 4]]
         yield {"kind": "iv", "a": [a1, a2], "b": [b1, b2], "abs": abs_, "rel": rel}
+    # geometries around the edges of a clip that lies far from time 0 (ticks of 2^-10 s, offsets around one hour)
+    for _ in range(n // 3):
+        s0 = rng.randrange(3_000_000, 4_000_000)
+        ln = rng.randrange(1, 20_000)
+        m = rng.choice([0, 0, 1, 5, 100])
+        edge = rng.choice([s0 + m, s0 + ln - m])
+        d = rng.choice([-3, -1, 0, 1, 2, 16, 40])
+        if rng.random() < 0.5:
+            g = {"type": "TimeStamp", "coordinates": max(edge + d, 0)}
+        else:
+            a = max(edge + d - rng.choice([0, 1, 1024, 5000]), 0)
+            g = {"type": "TimeInterval", "coordinates": sorted([a, max(edge + d, 0)])}
+            if rng.random() < 0.5:
+                g = {"type": "TimeInterval", "coordinates": [max(edge + d, 0), max(edge + d, 0) + rng.choice([0, 1, 2000])]}
+        yield {"kind": "clipfar", "g": g, "clip": [s0, s0 + ln], "m": m}
 
 def nontrivial(o):
     c = o["in"]
